@@ -333,6 +333,10 @@ pub fn run(ctx: &Ctx) -> (Spec, Report) {
                 SrcFile { path: "right/src/lib.rs".into(), source: "#[typeshare]\npub struct Shared { pub r: String }\n#[typeshare]\npub struct Other { pub r: String }\n#[typeshare]\npub struct RightOnly { pub r: String }\n".into() },
                 SrcFile { path: "third/src/lib.rs".into(), source: "#[typeshare]\npub struct Shared { pub t: bool }\n#[typeshare]\npub enum Unrelated { A, B }\n".into() },
             ];
+            if multi {
+                // the re-exporting crate exists and defines types of its own, but not the re-exported names
+                files.push(SrcFile { path: "facade/src/lib.rs".into(), source: "pub use left::Shared;\npub use right::Other;\n#[typeshare]\npub struct FacadeOwn { pub f: u8 }\n".into() });
+            }
             if !multi {
                 // single-file mode cannot hold three types of one name: keep the names distinct there
                 for (i, f) in files.iter_mut().enumerate().skip(1) {
